@@ -13,6 +13,7 @@ from ..common import Report
 
 PROPERTY = "C16"
 ENGINE = "E1"
+TECHNIQUE = "explicit-state exploration of every ordered pair of reflected queries per class, plus cross-object histories replayed in fresh interpreters"
 RULE = (
     "for one object of each of the ten shape classes (general position, away from the origin) the query alphabet is every public "
     "property and every query/export method found by reflection (is_inside, compute_form_factor_amplitude, distance_to_surface, "
